@@ -81,7 +81,10 @@ class C14Runner(HistoryRunner):
 # db-sim: one live table
 
 
-def session_task(modules: list[str], ops: list[dict[str, Any]]):
+def session_task(modules: list[str], ops: list[dict[str, Any]], sources: dict[str, list[str]] | None = None, in_memory: bool = False):
+	"""sources: module -> variant texts, for the in-session `edit-reload` op (edit a source, unload the module, load everything again).
+	in_memory: the pool modules live only in memory (a source provider override, the way bin/transpile.py and bin/analyze.py supply `__main__`):
+	the only kind of module whose source tranp re-reads inside one process (for files the mtime is memoised per process)."""
 	def task(seams: Any) -> dict[str, Any]:
 		import json
 		from rogw.tranp.errors import Errors
@@ -90,7 +93,24 @@ def session_task(modules: list[str], ops: list[dict[str, Any]]):
 		from rogw.tranp.semantics.reflection.persistent import ISymbolDBPersistor
 		from rogw.tranp.semantics.reflection.serialization import IReflectionSerializer
 		from rogw.tranp.syntax.ast.entrypoints import Entrypoints
-		app = tasks.make_app(modules, force=True, cache_enabled=False)
+		mem: dict[str, str] = {}
+		extra: dict[str, Any] = {}
+		if in_memory:
+			import os
+			from rogw.tranp.lang.locator import Invoker
+			from rogw.tranp.lang.module import to_fullyname
+			from rogw.tranp.providers.syntax.ast import source_provider
+			from rogw.tranp.syntax.ast.parser import SourceProvider
+			for x in modules:
+				rel = x.replace('.', '/') + '.py'
+				with open(rel, 'rb') as f:
+					mem[x] = f.read().decode('utf-8')
+				os.unlink(rel)
+			def provide_factory(invoker: Invoker) -> SourceProvider:
+				org = invoker(source_provider)
+				return lambda module_path: mem[module_path] if module_path in mem else org(module_path)
+			extra[to_fullyname(SourceProvider)] = provide_factory
+		app = tasks.make_app(modules, force=True, cache_enabled=False, extra_defs=extra)
 		mods = app.resolve(Modules)
 		for m in modules:
 			mods.load(m)
@@ -138,6 +158,60 @@ def session_task(modules: list[str], ops: list[dict[str, Any]]):
 									ev.setdefault('order_violations', []).append([key, r])
 							seen_keys.add(key)
 						ev['order_ok'] = order_ok
+				elif kind == 'edit-reload':
+					# the session goes on after an edit: source replaced, module (and its importers) unloaded and loaded again; every later
+					# export / import is judged against the table of the NEW sources, nothing of the discarded trees may come back
+					import os
+					srcs = (sources or {}).get(m)
+					if not srcs:
+						ev['skipped'] = 'not a pool module'
+					elif in_memory:
+						old_text = mem[m]
+						mem[m] = srcs[op['v'] % len(srcs)]
+						mods.unload(m)
+						try:
+							for x in modules:
+								mods.load(x)
+						except Errors.Error:
+							mem[m] = old_text
+							mods.unload(m)
+							for x in modules:
+								mods.load(x)
+							ev['skipped'] = 'edited state does not load (rolled back)'
+						now_loaded = [x.path for x in mods.loaded()]
+						ev['same_modules'] = sorted(now_loaded) == sorted(loaded)
+						ev['took_effect'] = observers.symbols_dump(db, m) != baseline[m]
+						exports.clear()
+						baseline = {x: observers.symbols_dump(db, x) for x in loaded}
+						all_before = observers.symbols_dump(db)
+						ev['variant'] = op['v'] % len(srcs)
+					else:
+						rel = m.replace('.', '/') + '.py'
+						st = os.stat(rel)
+						with open(rel, 'rb') as f:
+							old_src = f.read()
+						def put(data: bytes, k: int) -> None:
+							with open(rel, 'wb') as f:
+								f.write(data)
+							os.utime(rel, ns=(st.st_mtime_ns + 10**9 * k, st.st_mtime_ns + 10**9 * k))
+						put(srcs[op['v'] % len(srcs)].encode('utf-8'), 2 * n + 1)
+						mods.unload(m)
+						try:
+							for x in modules:
+								mods.load(x)
+						except Errors.Error:
+							# the edited state does not load (a variant that drops an import others need): put the old text back, load again
+							put(old_src, 2 * n + 2)
+							mods.unload(m)
+							for x in modules:
+								mods.load(x)
+							ev['skipped'] = 'edited state does not load (rolled back)'
+						now_loaded = [x.path for x in mods.loaded()]
+						ev['same_modules'] = sorted(now_loaded) == sorted(loaded)
+						exports.clear()
+						baseline = {x: observers.symbols_dump(db, x) for x in loaded}
+						all_before = observers.symbols_dump(db)
+						ev['variant'] = op['v'] % len(srcs)
 				elif kind in ('db-unload', 'module-unload'):
 					if kind == 'db-unload':
 						db.unload(m)
@@ -261,6 +335,11 @@ def judge_session(case: dict[str, Any], rec: dict[str, Any]) -> dict[str, Any]:
 				violations.append({'class': 'imported-table-differs', 'detail': ev, 'known': None, 'sig': row_field_diff(d[0]) if d[0] else ''})
 			if not ev['completed']:
 				violations.append({'class': 'not-completed-after-import', 'detail': ev, 'known': None, 'sig': 'completed'})
+		elif ev['op'] == 'edit-reload':
+			bump('faults_fired', 'schedule: source edited and module reloaded inside the session')
+			bump('probes', 'in-session edit changed the table' if ev.get('took_effect') else 'in-session edit left the table as it was')
+			if not ev.get('same_modules'):
+				violations.append({'class': 'reload-changes-module-set', 'detail': ev, 'known': None, 'sig': 'reload'})
 		elif ev['op'] == 'short-read':
 			bump('faults_fired', 'short-read(symbols file)')
 			if not ev['raised'] or not ev['table_unchanged']:
@@ -277,7 +356,8 @@ def run_session(case: dict[str, Any]) -> dict[str, Any]:
 	try:
 		for m, v in (case.get('state') or {}).items():
 			proj.set_variant(m, v, 10**9)
-		rec = sim_process(proj.sc.root, session_task(case.get('order') or case['pool']['modules'], case['ops']), timeout=240)
+		sources = {m: [v['src'] for v in vs] for m, vs in case['pool']['variants'].items()}
+		rec = sim_process(proj.sc.root, session_task(case.get('order') or case['pool']['modules'], case['ops'], sources, bool(case.get('in_memory'))), timeout=240)
 		return judge_session(case, rec)
 	finally:
 		proj.destroy()
@@ -318,6 +398,21 @@ class C14(Engine):
 				p = (j + 0.5) / n
 				ops += [{'op': 'export', 'pick': p}, {'op': 'short-read', 'pick': p, 'frac': 0.5}, {'op': 'module-unload', 'pick': p}, {'op': 'import-old', 'pick': p}]
 			cases.append({'engine': 'session', 'pool': pool, 'ops': ops})
+		for which in (0, 1):
+			pool = pools.fixed_pool(which)
+			n = 9
+			def round_trip() -> list[dict[str, Any]]:
+				out: list[dict[str, Any]] = []
+				for j in range(n):
+					p = (j + 0.5) / n
+					out += [{'op': 'export', 'pick': p}, {'op': 'db-unload' if j % 2 else 'module-unload', 'pick': p}, {'op': 'import', 'pick': p}]
+				return out
+			ops = round_trip()
+			for j in range(n):
+				# (picks that land on library modules are skipped by the op itself)
+				ops.append({'op': 'edit-reload', 'pick': (j + 0.5) / n, 'v': 2})
+			ops += round_trip()
+			cases.append({'engine': 'session', 'pool': pool, 'ops': ops, 'in_memory': True})
 		# prefix-related sibling modules (src.a / src.ab / src.a_b): taking one module's symbols away must leave the others' alone
 		fan = pools.gen_pool(random.Random(9), shape='fan', n_variants=3, allow_invalid=False, names=['src.d', 'src.ab', 'src.a', 'src.a_b'], swap_p=0.0)
 		for unload in ('db-unload', 'module-unload'):
@@ -362,21 +457,23 @@ class C14(Engine):
 		for _ in range(rng.randint(6, 24)):
 			p = rng.choice(picks)
 			r = rng.random()
-			if r < 0.3:
+			if r < 0.28:
 				ops.append({'op': 'export', 'pick': p})
-			elif r < 0.45:
+			elif r < 0.42:
 				ops.append({'op': 'db-unload', 'pick': p})
-			elif r < 0.55:
+			elif r < 0.52:
 				ops.append({'op': 'module-unload', 'pick': p})
-			elif r < 0.85:
+			elif r < 0.79:
 				ops.append({'op': 'import', 'pick': p})
+			elif r < 0.85:
+				ops.append({'op': 'edit-reload', 'pick': rng.choice(picks + [round(rng.random(), 4)]), 'v': rng.randrange(4)})
 			elif r < 0.95 - w_short:
 				ops.append({'op': 'import-old', 'pick': p})
 			else:
 				ops.append({'op': 'short-read', 'pick': p, 'frac': round(rng.random(), 4)})
 		order = list(mods)
 		rng.shuffle(order)
-		return {'engine': 'session', 'pool': pool, 'ops': ops, 'state': state, 'order': order}
+		return {'engine': 'session', 'pool': pool, 'ops': ops, 'state': state, 'order': order, 'in_memory': any(o['op'] == 'edit-reload' for o in ops) or rng.random() < 0.15}
 
 	def execute(self, case: dict[str, Any]) -> dict[str, Any]:
 		if case.get('engine') == 'session':
